@@ -90,11 +90,13 @@ package packfile
 //gvc:  grants verdict: (err != nil) == spec_delta_bad(d0, p0, n0, len(src))
 //gvc:end
 
-// PatchDelta (exported wrapper): for deltas of at least git's DELTA_SIZE_MIN
-// (4) bytes its verdict is patchDelta's. Nothing is claimed for 2- and 3-byte
-// deltas ([srclen, 0]: empty target): git refuses them (DELTA_SIZE_MIN) while
-// DiffDelta emits exactly these for an empty target, so the two halves of
-// property C06 disagree there; go-git applies them.
+// PatchDelta (exported wrapper): its verdict is git's -- a delta shorter than
+// DELTA_SIZE_MIN (4 bytes) is refused, any other one exactly when patchDelta
+// finds it bad.
+// Known finding F58: 2- and 3-byte deltas ([srclen, 0]: empty target) are
+// applied although git refuses them; DiffDelta emits exactly these for an
+// empty target, so refusing them here breaks go-git's own round trip (the two
+// halves of property C06 pull apart).
 // Known finding F18: every delta against an empty source is refused, although
 // git's patch_delta applies insert-only deltas to an empty base and DiffDelta
 // itself produces such deltas.
@@ -104,8 +106,9 @@ package packfile
 //gvc:  opt coarse
 //gvc:  opt frame args
 //gvc:  results out err
-//gvc:  ensures asgit: len(delta) >= 4 ==> ((err != nil) == spec_delta_bad(arr(delta), off(delta), len(delta), len(src)))
+//gvc:  ensures asgit: (err != nil) == (len(delta) < 4 || spec_delta_bad(arr(delta), off(delta), len(delta), len(src)))
 //gvc:  kf F18 asgit: len(src) == 0
+//gvc:  kf F58 asgit: len(delta) < 4
 //gvc:end
 
 //gvc:func growHint
